@@ -192,6 +192,42 @@ UNITS += [
 """),
 ]
 
+UNITS += [
+    # adding a key: the stored key file wraps THE key it was given, under the given password, and is named by its hash
+    Unit(name="add_key_to_repo", file=KC, anchor="pub(crate) fn add_key_to_repo<S>(", ret_name="r",
+         functions=["commands::key::add_key_to_repo"],
+         rewrites=[R_MAPERR,
+                   Rw("fn add_key_to_repo<S>(", "fn add_key_to_repo(", sig=True, why="repository state generic dropped"),
+                   Rw("repo: &Repository<S>,", "repo: &VRepoK2,", sig=True, why="repository -> stub (raw backend + decrypting backend)"),
+                   Rw("opts: &KeyOptions,", "opts: &KeyOptionsK,", sig=True, why="key options -> opaque (hostname/username/created: no influence on the wrapped key)"),
+                   Rw("pass: &str,", "pass: &PasswdB,", sig=True, why="password -> ghost byte sequence"),
+                   Rw("let ko = opts.clone();", "", why="DROPPED: clone of the option struct (its fields only label the key file)"),
+                   Rw(r"KeyFile::generate\(key, &pass, [^)]*\)", "vkeyfile_generate(key, pass)", regex=True, why="KeyFile::generate -> stub carrying the postcondition PROVED for unit kf_generate"),
+                   Rw("serde_json::to_vec(&keyfile)", "vkeyfile_to_json(&keyfile)", why="serde_json serialisation of the key file -> uninterpreted KF_SER"),
+                   Rw("KeyId::from(hash(&data))", "vkeyid_of_hash(&data)", why="SHA-256 of the serialised key file -> uninterpreted"),
+                   Rw("data.into()", "data", why="Vec<u8> -> Bytes"),
+         ],
+         contract="""
+    ensures
+        // "any of the added passwords opens the repository": the stored key file is opened by this password and yields this key
+        /*@added_key_file_wraps_the_given_key_under_the_given_password*/ r matches Ok(id) ==> key_added(pass.bytes@, key.0, id),
+""",
+         hints=[("before", "Ok(id)", "    proof { assert(opens_with(keyfile, pass.bytes@, key.0) && KEY_STORED(id, KF_SER(keyfile)) && id == KeyId(SHA256K(KF_SER(keyfile)))); }")],
+         ),
+    # adding a password to an open repository wraps the repository's CURRENT master key (not a new or default one)
+    Unit(name="add_current_key_to_repo", file=KC, anchor="pub(crate) fn add_current_key_to_repo<S: Open>(", ret_name="r",
+         functions=["commands::key::add_current_key_to_repo"],
+         rewrites=[Rw("fn add_current_key_to_repo<S: Open>(", "fn add_current_key_to_repo(", sig=True, why="repository state generic dropped"),
+                   Rw("repo: &Repository<S>,", "repo: &VRepoK2,", sig=True, why="repository -> stub"),
+                   Rw("opts: &KeyOptions,", "opts: &KeyOptionsK,", sig=True, why="key options -> opaque"),
+                   Rw("pass: &str,", "pass: &PasswdB,", sig=True, why="password -> ghost byte sequence"),
+                   Rw("add_key_to_repo(repo, opts, pass,", "vadd_key_to_repo2(repo, opts, pass,", why="add_key_to_repo -> stub carrying the postcondition proved for unit add_key_to_repo")],
+         contract="""
+    ensures
+        /*@added_password_opens_the_current_master_key*/ r matches Ok(id) ==> key_added(pass.bytes@, repo.dbe.k.0, id),
+"""),
+]
+
 M = "backend::decrypt::verif_kani::"
 # reading a pack's header back (repair index) must reject a pack whose size does not fit its header: the unit lives in C08's
 # spec and is verified as part of this check as well (a stored file that was lengthened or shortened is detected)
@@ -211,7 +247,7 @@ KANI_ASSUMPTIONS = [
     "store = recording mock backend with symbolic per-operation failure",
 ]
 META = {"not_covered": [
-    "the ciphers themselves (AES-CTR, Poly1305: uninterpreted, AEAD correctness ASSUMED for the generate/open round trip), scrypt, serde of key files, key add/remove histories",
+    "the ciphers themselves (AES-CTR, Poly1305: uninterpreted, AEAD correctness ASSUMED for the generate/open round trip), scrypt, serde of key files, key add/remove HISTORIES (the single add step is the units add_key_to_repo / add_current_key_to_repo)",
     "'no plaintext in storage' as a statement about all writers (only hash_write_full and the packer hand-over under C08)",
     "compressing writers (zstd FFI); the decoder is an arbitrary function in the compressed-read harness",
 ]}
